@@ -67,6 +67,7 @@ L:
 	f, err := os.Open("/sim/nothing")
 	fmt.Println(f == nil, err != nil)
 	timers()
+	racy()
 	if len(os.Args) > 1 {
 		os.Exit(3)
 	}
@@ -202,4 +203,27 @@ func init() {
 		}
 	}
 	<-fin
+}
+
+// an unsynchronised read-modify-write: only statement-level pre-emption loses updates
+func racy() {
+	x := 0
+	var wg sync.WaitGroup
+	for g := 0; g < 2; g++ {
+		wg.Add(1)
+		go func() {
+			defer wg.Done()
+			for i := 0; i < 100; i++ {
+				t := x
+				t++
+				x = t
+			}
+		}()
+	}
+	wg.Wait()
+	if x == 200 {
+		fmt.Println("racy exact")
+	} else {
+		fmt.Println("racy lost-updates")
+	}
 }
